@@ -217,7 +217,8 @@ def run_impl(case):
             obs["pen_raises"] = "%s: %s" % (type(exc).__name__, exc)
         if joined is not None:
             try:
-                obs["joined"] = float(joined(list(x))); obs["parts"] = [float(p(list(x))) for p in parts]
+                jv = float(joined(list(x))); pv_ = [float(p(list(x))) for p in parts]
+                obs["joined"] = jv; obs["parts"] = pv_
             except OverflowError:
                 obs["joined_overflow"] = True
             except Exception as exc:
@@ -784,10 +785,12 @@ def main(tier, seed):
     def search_more():
         r = framework.run_shards("c14", "run_shard", PID, seed + 7919, 32, 600, tier)
         return r["findings"]
-    rule = ("cases: generated constraint texts (1-4 lines, any left-hand side, every comparator incl. '==', + - * / unary minus over "
+    rule = ("cases: generated constraint texts (1-4 lines, any left-hand side, every comparator incl. '==', + - * / unary minus - and in 40% of "
+            "the small-regime cases **, abs, min/max, sqrt floor ceil exp log sin cos - over "
             "int/float/huge/tiny literals and names bound through locals=, 1-13 variables, base-name and named schemes, custom tol/rel) "
             "compiled by the real generate_conditions; penalties from generate_penalty with default / per-line / single ptype out of "
-            "quadratic|linear|uniform (in)equality, k, h, 0-2 iter() calls, join=None|and_|or_; points on the boundary, one ulp either "
+            "quadratic|linear|uniform (in)equality, k, h, 0-2 iter() calls, join=None|and_|or_ (40% joined; members grouped per kind or one per line); "
+            "a separate stream (1/8) drives barrier_inequality / lagrange_(in)equality through generate_penalty with iter()/iter(i)/store(x)/clear(); points on the boundary, one ulp either "
             "side, around the tolerance band, integer points (exact equalities), huge/tiny; 35% of the cases evaluate the penalty at the "
             "output of generate_constraint(generate_solvers(text)) of the same isolated-form text. non-trivial = non-zero penalty or a "
             "constraint-driven point")
@@ -796,8 +799,9 @@ def main(tier, seed):
           "condition value and of the penalty with the Lean evaluation",
           "the line a text states is the generator's own structure printed to text (never read back from mystic)",
           "recogniseCond / condEmit (Model/Emitted.lean) characterised in Props/C14.lean; run on what the current tree emits",
-          "penalty types: the six conforming types at iteration n with k' = k*h^n (barrier / lagrange belong to C15); join=and_/or_ "
-          "are checked on the implementation only (|p1+p2|, |min(p1,p2)|)"]
+          "penalty types: the six conforming types at iteration n with k' = k*h^n; join=and_/or_ modelled by Model/EmittedJoin.penJoin "
+          "(member penalties at iteration 0, joining multiplier 1) and compared bit for bit together with every member penalty; "
+          "barrier / lagrange types: monitored only (independent reading of the documented per-line formulas and of the iteration state)"]
     assumptions = ["IEEE binary64 + - * / and comparisons agree between Lean Float and CPython; c**2 (C pow) equals c*c except for a last-ulp "
                    "difference near ties: a penalty with quadratic terms that is not bit-identical is accepted within 1e-14 relative and "
                    "counted as pen:toleranced-pow; python's OverflowError of c**2 corresponds to the model's inf; pow(h,n) is exact for the "
